@@ -126,11 +126,28 @@ def gen_plan(seed, tier="quick", variant=None):
         t_m = round(0.5 + rng.random() * 1.2, 6)
         phantoms.append({"name": "phm", "topics": names, "session_ms": 1500, "join_t": t_m, "end": rng.choice(["stay", "leave"]), "end_t": 3.0,
                          "join_delay": rng.choice([0.001, 0.02])})
+        if rng.random() < 0.5:
+            # (and a topic has grown shortly before: what the leader may still have cached is stale)
+            faults.append({"t": round(max(0.1, t_m - 0.1 - rng.random() * 0.3), 6), "act": "add_partitions", "topic": rng.choice(names), "n": rng.randint(1, 2)})
         if rng.random() < 0.4:
             faults.append({"api": 3, "node": None, "nth": 0, "act": "error", "code": rng.choice([5, 3]), "count": rng.choice([1, 2, 4]), "from_t": round(t_m - 0.02, 6)})
         else:
             # no broker (nor the bootstrap host) answers metadata requests for a while: the lookup times out everywhere and fails outright
             faults.append({"api": 3, "node": None, "nth": 0, "act": "silent", "count": rng.choice([nb + 1, 2 * (nb + 1), 4 * (nb + 1)]), "from_t": round(t_m - 0.02, 6)})
+            if rng.random() < 0.5:
+                # ... beginning while the members' JoinGroups wait for a slow member: the outage hits the lookup the freshly
+                # elected leader makes for its assignment, not the one every member makes before joining
+                phantoms[-1]["join_delay"] = 0.5
+                faults[-1]["from_t"] = round(t_m + 0.35, 6)
+                for f_ in faults:
+                    if f_.get("act") == "add_partitions":
+                        f_["t"] = round(t_m + 0.25 + rng.random() * 0.08, 6)  # after the members' own pre-join lookups
+            if rng.random() < 0.6:
+                # quick client-side timeouts and patient sessions: the lookup has failed everywhere before the coordinator
+                # gives up on the member, so whatever the leader does next still reaches it
+                cfg["client"]["timeout_ms"] = 500
+                for m_ in members:
+                    m_["session_ms"] = 3000
     if variant in ("faulty", "churn") and nb > 1 and rng.random() < 0.3:
         # a broker - maybe the coordinator - is taken out of service for good: its requests time out, the coordinator has moved
         faults.append({"t": round(0.5 + rng.random() * 1.5, 6), "act": "retire_broker", "node": rng.randint(1, nb)})
@@ -165,7 +182,11 @@ def gen_plan(seed, tier="quick", variant=None):
             m["hb_ms"] = rng.choice([50, 100])
         i = rng.randrange(nmem)
         t0 = round(0.8 + rng.random() * 1.2, 6)
-        ops.append({"t": t0, "op": "stop", "m": i})
+        if rng.random() < 0.3:
+            # ... or stop of the member right after it has been told that it leads the new generation
+            ops.append({"t": t0, "op": "stop", "m": i, "on_leader_join": rng.choice([1, 2, 2]), "delay": rng.choice([0.0005, 0.002, 0.006])})
+        else:
+            ops.append({"t": t0, "op": "stop", "m": i})
         if rng.random() < 0.5:
             ops.append({"t": round(t0 + 0.3 + rng.random(), 6), "op": "start", "m": i})
         if rng.random() < 0.8:
@@ -190,7 +211,12 @@ def gen_plan(seed, tier="quick", variant=None):
         else:
             phantoms.append({"name": "phs", "topics": names, "session_ms": 1500, "join_t": round(t0 - 0.15 + rng.random() * 0.4, 6), "end": "stay", "end_t": 3.5,
                              "join_delay": rng.choice([0.02, 0.2])})
-    t_end = max([horizon] + [f["t"] for f in faults if "t" in f] + [o["t"] for o in ops] + [p["end_t"] for p in phantoms] + [p["join_t"] for p in phantoms])
+    for f in faults:
+        if f.get("api") == 3 and f.get("act") == "silent" and "from_t" in f:
+            # the fault phase lasts until the unanswered lookups have timed out on every broker and the bootstrap host
+            f["hold"] = round((nb + 1) * cfg["client"]["timeout_ms"] / 1000.0 * 1.2 + 0.3, 6)
+    t_end = max([horizon] + [f["t"] for f in faults if "t" in f] + [o["t"] for o in ops] + [p["end_t"] for p in phantoms] + [p["join_t"] for p in phantoms] +
+                [f["from_t"] + f.get("hold", 0.0) for f in faults if "from_t" in f])
     plan = {"family": FAMILY, "seed": seed, "tier": tier, "cfg": cfg, "ops": ops, "faults": faults, "phantoms": phantoms,
             "t_faults_end": round(t_end + 0.05, 6)}
     return plan
@@ -387,8 +413,25 @@ def _run(w, plan):
 
     for m in members:
         sim.at(m.cfg["start_t"], start_member, m)
+    leader_ops = {}
     for o in plan["ops"]:
-        sim.at(o["t"], do_op, o)
+        if "on_leader_join" in o:
+            leader_ops.setdefault(o["m"], []).append(dict(o, left=o["on_leader_join"]))
+        else:
+            sim.at(o["t"], do_op, o)
+
+    def on_join_answer(pid, is_leader):
+        if not is_leader or pid is None:
+            return
+        for i_, m_ in enumerate(members):
+            if m_.pid == pid:
+                for o in leader_ops.get(i_, []):
+                    o["left"] -= 1
+                    if o["left"] == 0:
+                        # lands while the freshly elected leader loads the partition lists for its assignment
+                        sim.after(o["delay"], do_op, o)
+
+    gc.on_join_answer = on_join_answer
     for p in plan["phantoms"]:
         sim.at(p["join_t"], do_op, {"op": "ph_join", "name": p["name"], "topics": p["topics"], "session_ms": p["session_ms"], "join_delay": p["join_delay"]})
         if p["end"] == "leave":
